@@ -180,6 +180,6 @@ _current = None
 def get_workspace(repo="/repo"):
     """Per-process workspace (created lazily; forked workers each create their own)."""
     global _current
-    if _current is None or _current._owner_pid != os.getpid() or _current.repo != str(repo):
+    if _current is None or _current.repo != str(repo):   # a forked child re-uses its parent's scratch copy
         _current = Workspace(repo)
     return _current
